@@ -242,9 +242,13 @@ def oracle_c04(rr: Any, spec: Dict[str, Any]) -> "tuple[List[Violation], int]":
     unfinished: set = set()
     info = {i["d"]: i for i in rr.sc.deliveries}
 
+    slow_td = {n for n, nd in (spec.get("deps") or {}).items() if nd.get("td_lat") and nd.get("style") in ("agen", "acm")}
+
     def done(s: Dict[str, int]) -> bool:
         if not (s["exit"] and s["body"] <= 0 and s["acks"] <= 0):
             return False
+        if s.get("deps_open", 0) > 0:
+            return False  # a dependency opened for this execution has not been closed yet
         # an ackable, well-formed message is only finished once its acknowledgement has completed
         # (unless its processing aborted with an exception, then it is never acknowledged)
         if s.get("needs_ack") and not s.get("acked") and not s.get("raised"):
@@ -278,6 +282,10 @@ def oracle_c04(rr: Any, spec: Dict[str, Any]) -> "tuple[List[Violation], int]":
             s["acked"] = 1
         elif k == "cb_raise":
             s["raised"] = 1
+        elif k == "dep_open":
+            s["deps_open"] = s.get("deps_open", 0) + 1
+        elif (k == "dep_closed" and e.get("dep") in slow_td) or (k == "dep_close" and e.get("dep") not in slow_td):
+            s["deps_open"] = s.get("deps_open", 0) - 1
         if d in unfinished and done(s):
             unfinished.discard(d)
     return v, mx
@@ -801,7 +809,16 @@ def oracle_c12(rr: Any, spec: Dict[str, Any]) -> "tuple[List[Violation], int]":
                 break
         # exception propagation
         how = te[-1]["how"] if te else ("depfail" if dr else None)
-        failed = how in ("raise", "cancelled", "noresult", "depfail")
+        bad_label = _msg_for(spec, info).get("timeout_raw") is not None
+        if bad_label:
+            # the execution failed (ValueError: the timeout label is not a number) after the dependencies were
+            # opened; the function itself must never be started, least of all after the teardown
+            ts_ = first(evs, "task_start")
+            if ts_ is not None:
+                v.append(Violation("teardown-early" if closes and ts_["i"] > closes[0]["i"] else "ran-despite-invalid-timeout",
+                                   f"delivery {d}: the execution failed on its timeout label, its dependencies were torn down - and the task function ran at t={ts_['t']}"))
+            how = how or "badlabel"
+        failed = how in ("raise", "cancelled", "noresult", "depfail", "badlabel")
         for c in closes:
             seen = c.get("exc_seen") is not None
             if seen != (failed and propagate):
